@@ -36,6 +36,12 @@
 ////////////////////////////////////////////////////////////////////////
 ////////////////////////////////////////////////////////////////////////
 
+#if (__GNUC__ >= 11)
+#define OPT_FIX __attribute__((noipa))
+#else
+#define OPT_FIX
+#endif
+
 #define W(x) w[(x) & 15]
 
 #define step(i, a, b, c, d, e, f, g, h, k)                                                         \
@@ -48,7 +54,7 @@
         d += t1;                                                                                   \
         h = t1 + t2;
 
-void
+void OPT_FIX
 sha256_single_for_mh_sha256(const uint8_t *data, uint32_t digest[])
 {
         uint32_t a, b, c, d, e, f, g, h, t1, t2;
